@@ -224,4 +224,18 @@ def shard(ctx):
 def replay(ctx, case):
     run_case(ctx, case, confirm=True)
 
-FINDINGS = {}
+def _f_sibling_dir(sig, case, detail=""):
+    """the moved step is shared by sibling packages of one multiPackage recipe: old and new directory are named after
+    different siblings (dev/build/r5-a/1 -> dev/build/r5-b/1)"""
+    if sig != "variant-moved-directory":
+        return False
+    m = re.search(r"step of recipe (\S+), variant \w+ moved from (\[.*?\]) to (\[.*?\])", detail)
+    if not m:
+        return False
+    recipe = m.group(1)
+    def pk(lst):
+        return {d.split("/")[2] for d in re.findall(r"'([^']+)'", lst)}
+    old, new = pk(m.group(2)), pk(m.group(3))
+    return bool(old) and bool(new) and not (old & new) and all(n.startswith(recipe + "-") for n in old | new)
+
+FINDINGS = {"C16-shared-step-of-multipackage-siblings-moves": _f_sibling_dir}
